@@ -84,6 +84,13 @@ func didParseCase(c *Ctx, tag, text string) {
 					canon = true
 				}
 			}
+			// key extraction is a function of the DID: a second and a third call say the same
+			for i := 0; i < 2; i++ {
+				pk2, err2 := d.PubKey()
+				if (err2 == nil) != (err == nil) || (err == nil && !pk.Equals(pk2)) {
+					pkClass = "unstable"
+				}
+			}
 		}()
 		obs = WList(WStr("ok"), WStr(d.String()), WStr(pkClass), WBool(canon))
 	}()
@@ -315,7 +322,7 @@ func genDid(c *Ctx) {
 			hx.WriteByte(hexs[b&15])
 		}
 		for _, t := range []string{"", "did:key:", "did:key:z", "did:key", "did:web:" + t0[8:], "DID:KEY:" + t0[8:], t0[:8] + "f" + hx.String(), t0[:8] + "Z" + t0[9:],
-			t0 + " ", " " + t0, t0 + "0", t0 + "O", t0 + "I", t0 + "l", t0[:8] + "z1" + t0[9:], t0[:8] + "z11" + t0[9:], t0[:8] + "m" + t0[9:], t0[:8] + "\x00" + t0[9:], "did:key:z1", "did:key:z11111",
+			t0 + "#" + t0[8:], t0 + "#", t0 + "#key-1", t0 + "#" + t0[8:] + "#" + t0[8:], t0 + "?x=1", t0 + "/path", t0 + ";v=1", t0 + "\n", t0 + " ", " " + t0, t0 + "0", t0 + "O", t0 + "I", t0 + "l", t0[:8] + "z1" + t0[9:], t0[:8] + "z11" + t0[9:], t0[:8] + "m" + t0[9:], t0[:8] + "\x00" + t0[9:], "did:key:z1", "did:key:z11111",
 			mk(0, nil), mk(0xed, nil), mk(0x55, []byte{1, 2, 3}), mk(1<<63-1, []byte{1}), "did:key:z" + base58.Encode([]byte{0x80}), "did:key:z" + base58.Encode(bytes.Repeat([]byte{0xff}, 10))} {
 			didParseCase(c, "did/text", t)
 		}
